@@ -430,6 +430,32 @@ mod vmgrp {
     }
 }
 
+// ---- a zero ceiling written as a float / as a `Duration`: nothing is called ----
+#[divan::bench(sample_count = 5, sample_size = 3, max_time = 0.0, threads = [1, 2])]
+fn a_5_3_t12_max0f(b: Bencher) {
+    run("a_5_3_t12_max0f");
+    b.bench(|| call("a_5_3_t12_max0f"));
+}
+
+#[divan::bench(sample_count = 2, sample_size = 2, max_time = std::time::Duration::ZERO, threads = [1, 3])]
+fn a_2_2_t13_max0d(b: Bencher) {
+    run("a_2_2_t13_max0d");
+    b.bench(|| call("a_2_2_t13_max0d"));
+}
+
+#[divan::bench_group(max_time = 0.0)]
+mod gmax0f {
+    use super::{call, run};
+    use divan::Bencher;
+
+    /// float zero ceiling inherited from the group
+    #[divan::bench(sample_count = 3, sample_size = 2, threads = [1, 2])]
+    fn g_3_2_t12_max0f(b: Bencher) {
+        run("g_3_2_t12_max0f");
+        b.bench(|| call("g_3_2_t12_max0f"));
+    }
+}
+
 /// On the OS timer: every call really takes at least 400 ms.
 #[divan::bench(sample_count = 6, sample_size = 1)]
 fn os_sleep400(b: Bencher) {
@@ -490,6 +516,9 @@ const ALL: &[&str] = &[
     "hx_loop_e2e::vmax_durmax",
     "hx_loop_e2e::vmin_u64max",
     "hx_loop_e2e::vmin_durmax",
+    "hx_loop_e2e::a_5_3_t12_max0f",
+    "hx_loop_e2e::a_2_2_t13_max0d",
+    "hx_loop_e2e::gmax0f::g_3_2_t12_max0f",
     "hx_loop_e2e::thr64",
     "hx_loop_e2e::vattr_max",
     "hx_loop_e2e::vmgrp::vgrp_max",
